@@ -96,6 +96,19 @@ pub fn dispatch(ctx: &mut Ctx, op: &str, call: &Value) -> Option<Value> {
             "h4" => clone_ref::<Hdr4>(ctx),
             _ => out::unsupported(),
         },
+        // how the error values render for a user (Display): every variant, of the common crate and as forwarded
+        // by the two crates' LoadError
+        "err_texts" => {
+            use multiboot2_common::MemoryError as M;
+            let all = [M::Null, M::WrongAlignment, M::ShorterThanHeader, M::MissingPadding, M::InvalidReportedTotalSize];
+            let mem: Vec<String> = all.iter().map(|e| format!("{e}")).collect();
+            let mut info: Vec<String> = all.iter().map(|e| format!("{}", multiboot2::LoadError::Memory(*e))).collect();
+            info.push(format!("{}", multiboot2::LoadError::NoEndTag));
+            let mut hdr: Vec<String> = all.iter().map(|e| format!("{}", multiboot2_header::LoadError::Memory(*e))).collect();
+            hdr.push(format!("{}", multiboot2_header::LoadError::MagicNotFound));
+            hdr.push(format!("{}", multiboot2_header::LoadError::ChecksumMismatch));
+            json!({"k": "texts", "mem": mem, "info": info, "hdr": hdr})
+        }
         "round8" => {
             let n = out::arg_u64(call, "n") as usize;
             out::val(multiboot2_common::increase_to_alignment(n) as u64, 8)
